@@ -16,10 +16,12 @@ def gen_case(ctx, g):
     B, join, nb = None, None, None
     if r.random() < 0.3:
         nb = r.randint(1, 2)
-        B = g.rect_table(r.randint(0, 4), nb, ['a', 'b', '1'])
+        # (key cells include the EMPTY string: a falsy key is a key like any other - seeded change C05-11 skipped such B records)
+        keys = ['a', 'b', '1', ''] if r.random() < 0.5 else ['a', 'b', '1']
+        B = g.rect_table(r.randint(0, 4), nb, keys)
         for row in A:
             if row and r.random() < 0.8:
-                row[0] = r.choice(['a', 'b', '1'])
+                row[0] = r.choice(keys)
         kind, sp = r.choice([('inner', 'join'), ('inner', 'inner join'), ('left', 'left join'), ('left', 'left outer join')])
         join = {'kind': kind, 'spelling': sp, 'lhs': [0], 'rhs': [0]}
     cx = {'na': na, 'nb': nb, 'update': True}
